@@ -7,9 +7,16 @@ import (
 	"context"
 	"fmt"
 	mrand "math/rand"
+	"strings"
+	"sync"
+	"sync/atomic"
 	"time"
 
+	tss "github.com/IBM/TSS/types"
+
+	"verifharness/cluster"
 	"verifharness/common"
+	"verifharness/simnet"
 )
 
 type c05case struct {
@@ -320,6 +327,172 @@ func unitC05(e common.Env, p *common.Part) {
 		}
 		if i%41 == 0 {
 			p.Sample(map[string]interface{}{"case": cs.String(), "honest_completions": honestDone, "errors": fmt.Sprint(r.d.errs)})
+		}
+	}
+}
+
+// ---- C05 through the orchestrator: different values shown to different parties ----
+
+// unitC05orch: BLS / PS key generation through real Loud/Silent schemes; the Byzantine participant's transmissions are
+// altered PER DESTINATION on the wire (equivocation of commitments, public keys and shares), so the reliable broadcast is
+// what has to keep the honest parties consistent.
+func unitC05orch(e common.Env, p *common.Part) {
+	p.Rule = "BLS and PS key generation through real LoudScheme / SilentScheme objects on the simulated network (random mode); one participant's protocol transmissions are altered per destination on the wire: one victim gets the commitment / public key / share with a flipped byte (or a message of an earlier key generation on the same cluster) while the others get the genuine one; (n,t) in {(3,2),(3,3),(4,3)}; oracle as in c05: honest completers agree and sign jointly under the reported key, or return errors; no panic (a crash in a background goroutine kills the child and is reported by the parent); distinct key = (scheme, mode, n, t, strategy, victim, seed); non-trivial when an altered transmission was delivered"
+	type cs struct {
+		sch    scheme
+		n, t   int
+		silent bool
+		strat  string
+		victim uint16
+	}
+	var cases []cs
+	for _, sch := range []scheme{{Name: "bls"}, {Name: "ps", MsgLen: 1}} {
+		for _, x := range []struct{ n, t int }{{3, 2}, {3, 3}, {4, 3}} {
+			for _, silent := range []bool{false, true} {
+				for _, st := range []string{"equivocate-broadcasts-flip", "equivocate-broadcasts-old-session", "equivocate-everything-flip", "duplicate-with-changed-copy"} {
+					for v := 2; v <= x.n; v++ {
+						if !e.Thorough() && v > 2 && st != "equivocate-broadcasts-flip" {
+							continue
+						}
+						cases = append(cases, cs{sch, x.n, x.t, silent, st, uint16(v)})
+					}
+				}
+			}
+		}
+	}
+	for i, c := range cases {
+		if !e.Mine(i) || p.ViolationCount() >= 3 {
+			continue
+		}
+		mode := "loud"
+		if c.silent {
+			mode = "silent"
+		}
+		key := fmt.Sprintf("%s %s n=%d t=%d byz=1 %s victim=%d", c.sch.Name, mode, c.n, c.t, c.strat, c.victim)
+		p.Begin(key)
+		rng := e.Rng("c05orch", i)
+		var ids []uint16
+		m := map[uint16]uint16{}
+		for k := 1; k <= c.n; k++ {
+			ids = append(ids, uint16(k))
+			m[uint16(k)] = uint16(k)
+		}
+		sch := c.sch
+		cl := cluster.New(cluster.Config{Map: m, Silent: c.silent, Threshold: c.t - 1,
+			KGF: func(node uint16) tss.KeyGenerator { return sch.newKG(node) },
+			SF:  func(node uint16) tss.Signer { return sch.newSigner(node) }})
+		go cl.Net.RunRandom(rng, []simnet.Policy{simnet.Uniform, simnet.PreferNewest, simnet.ByReceiver}[i%3])
+		keygen := func(timeout time.Duration) (map[uint16][]byte, map[uint16]error) {
+			if c.silent {
+				cl.SetPick(tss.DkgTopicName, ids)
+			}
+			ctx, cancel := context.WithTimeout(context.Background(), timeout)
+			defer cancel()
+			outs, errs := map[uint16][]byte{}, map[uint16]error{}
+			var mu sync.Mutex
+			var wg sync.WaitGroup
+			for _, u := range ids {
+				u := u
+				wg.Add(1)
+				go func() {
+					defer wg.Done()
+					o, err := cl.Schemes[u].KeyGen(ctx, c.n, c.t)
+					mu.Lock()
+					outs[u], errs[u] = o, err
+					mu.Unlock()
+				}()
+			}
+			wg.Wait()
+			return outs, errs
+		}
+		var old [][]byte
+		var omu sync.Mutex
+		altered := int32(0)
+		if c.strat == "equivocate-broadcasts-old-session" && !c.silent {
+			// capture node 1's broadcast-class transmissions of an honest first key generation
+			cl.Net.SetInterceptor(1, func(nw *simnet.Net, src uint16, typ uint8, topic, data []byte, dsts []uint16) []simnet.Outgoing {
+				if typ == uint8(tss.MsgTypeMPC) && len(dsts) == c.n-1 && len(data) > 30 {
+					omu.Lock()
+					old = append(old, append([]byte{}, data...))
+					omu.Unlock()
+				}
+				var o []simnet.Outgoing
+				for _, d := range dsts {
+					o = append(o, simnet.Outgoing{Dst: d, Type: typ, Topic: topic, Data: data})
+				}
+				return o
+			})
+			keygen(20 * time.Second)
+			time.Sleep(3 * time.Millisecond)
+		}
+		cnt := 0
+		cl.Net.SetInterceptor(1, func(nw *simnet.Net, src uint16, typ uint8, topic, data []byte, dsts []uint16) []simnet.Outgoing {
+			var o []simnet.Outgoing
+			isBcast := len(dsts) == c.n-1
+			for _, d := range dsts {
+				out := data
+				if typ == uint8(tss.MsgTypeMPC) && d == c.victim && len(data) > 30 {
+					switch c.strat {
+					case "equivocate-broadcasts-flip":
+						if isBcast {
+							out = flipByte(data, -2)
+						}
+					case "equivocate-everything-flip":
+						out = flipByte(data, -1-cnt%5)
+					case "equivocate-broadcasts-old-session":
+						omu.Lock()
+						if isBcast && len(old) > 0 {
+							out = old[cnt%len(old)]
+						}
+						omu.Unlock()
+					case "duplicate-with-changed-copy":
+						o = append(o, simnet.Outgoing{Dst: d, Type: typ, Topic: topic, Data: data})
+						out = flipByte(data, -2)
+					}
+					if !sameBytes(out, data) {
+						atomic.AddInt32(&altered, 1)
+					}
+					cnt++
+				}
+				o = append(o, simnet.Outgoing{Dst: d, Type: typ, Topic: topic, Data: out})
+			}
+			return o
+		})
+		outs, errs := keygen(1500 * time.Millisecond)
+		cl.Net.Stop()
+		var completers []uint16
+		for _, u := range ids[1:] {
+			if errs[u] == nil {
+				completers = append(completers, u)
+			}
+		}
+		p.Case(key, atomic.LoadInt32(&altered) > 0)
+		p.Count("sessions", 1)
+		p.Count("altered_transmissions", int64(atomic.LoadInt32(&altered)))
+		p.Count("honest_completions_under_attack", int64(len(completers)))
+		viol := ""
+		if len(completers) >= 2 {
+			if v := consistentPublicMaterial(completers, outs); v != "" {
+				viol = "split-key: honest parties completed with differing public material: " + v
+			}
+		}
+		if viol == "" && len(completers) >= c.t {
+			sub := completers[:c.t]
+			var err error
+			if c.sch.Name == "bls" {
+				err = jointBLS(ids, c.t, outs, sub, []byte("digest-for-c05-0123456789abcdef.."), completers[0])
+			} else {
+				err = jointPS(ids, c.t, c.sch.MsgLen, outs, sub, [][]byte{[]byte("x")}, completers[0])
+			}
+			if err != nil {
+				viol = fmt.Sprintf("poisoned-key: honest parties %v completed but %v cannot jointly sign under the reported key: %v", completers, sub, err)
+			}
+		}
+		if viol != "" {
+			p.Violate(strings.SplitN(viol, ":", 2)[0]+"/"+c.sch.Name+"/"+c.strat+"/orchestrator", key+": "+viol, map[string]interface{}{"case": key})
+		}
+		if i%9 == 0 {
+			p.Sample(map[string]interface{}{"case": key, "altered_transmissions": atomic.LoadInt32(&altered), "honest_completions": len(completers)})
 		}
 	}
 }
